@@ -789,5 +789,6 @@ func c18(ctx *Ctx) {
 	_ = rule
 	cTCP(ctx, "C18")
 	cUDPInto(ctx, "C18", 40, 500)
+	udpDNSSilent(ctx, "C18")
 	ctx.Stats.Rule = "part 1: TCP and UDP loopback scenarios weighted towards authenticated-then-malformed inputs, against the model (Corr/TCP, Corr/UDP); part 2: child processes run the real stream handler behind StreamServe and the real packet handler on shared listeners; seeded barrage: every malformed / boundary SOCKS address form as authenticated plaintext over TCP (x3 ways of ending the connection) and UDP (new and live association), raw inputs of boundary sizes, sealed length blocks with high bits, targets that reset / flood / hang, replies of boundary sizes, from an unexpected source and from a zoned link-local sender; canary TCP connection, fresh connections and a UDP association checked between batches; then shutdown with a handler still running, and a census of goroutines, descriptors and NAT entries; a crash of the child is an observation; non-trivial = distinct input kinds"
 }
